@@ -16,7 +16,8 @@ Local Open Scope N_scope.
 Inductive xv :=
 | XS (s : str)                 (* a scalar, already through ToString *)
 | XL (l : list xv)
-| XM (l : list (str * xv)).    (* entries in iteration order *)
+| XM (l : list (str * xv))     (* entries in iteration order *)
+| XW (is_format : bool) (v : xv).   (* export.Format (true) or export.Link (false) around a value *)
 
 Inductive jv :=
 | JStr (s : str)
@@ -72,7 +73,11 @@ Fixpoint export (tbl : esc_table) (v : xv) : list N :=
       123 :: sep_concat (map (fun kv => json_string tbl (fst kv) ++ colon :: snd kv)
                              (sort_keys (map (fun kv => (fst kv, export tbl (snd kv))) l)))
           ++ [125]
+  | XW _ w => export tbl w        (* Export: case Format / case Link: return Export(st, v.Value, exporter) *)
   end.
+
+(* a stack of wrappers around a value, outermost first *)
+Definition wrap (ws : list bool) (v : xv) : xv := fold_right XW v ws.
 
 (* what the document must decode to *)
 Fixpoint jproj (v : xv) : jv :=
@@ -80,6 +85,17 @@ Fixpoint jproj (v : xv) : jv :=
   | XS s => JStr s
   | XL l => JArr (map jproj l)
   | XM l => JObj (sort_keys (map (fun kv => (fst kv, jproj (snd kv))) l))
+  | XW _ w => jproj w             (* style and link wrappers carry no data *)
+  end.
+
+(* a wrapper stack around any sub-value (list element, map value, root) changes neither the bytes
+   nor what they decode to: replace every wrapped sub-value by the value itself *)
+Fixpoint strip_wrappers (v : xv) : xv :=
+  match v with
+  | XS s => XS s
+  | XL l => XL (map strip_wrappers l)
+  | XM l => XM (map (fun kv => (fst kv, strip_wrappers (snd kv))) l)
+  | XW _ w => strip_wrappers w
   end.
 
 (* ---------- specification decoder ---------- *)
